@@ -220,6 +220,16 @@ func wApplyDerive(spec *quic.QUICSpec, d *WDerive) error {
 			spec.SuppressTransportParameters = append(spec.SuppressTransportParameters, d.DupSuppressed)
 		}
 	}
+	if d.ISCID != "" {
+		if q := wQTPExt(spec); q != nil {
+			b, _ := hex.DecodeString(d.ISCID)
+			for i, tp := range q.TransportParameters {
+				if tp.ID() == 0x0f {
+					q.TransportParameters[i] = tls.InitialSourceConnectionID(b)
+				}
+			}
+		}
+	}
 	switch d.Shuffle {
 	case 1:
 		spec.RandomizeTransportParameters = true
